@@ -31,6 +31,21 @@ CHECKS = {
     "C14": dict(
         text="Trace validation of the symbol tree of every buffer state: children inside parents, siblings in source order.",
         ref="DESIGN.md 5/C14", technique="TLC trace validation (Session.tla predicates on symbol trees)"),
+    "C03": dict(
+        text="Trace validation of the memo rule Session!Det: every query key (kind, file, offset) of four worlds is run repeatedly on one decoder in shuffled "
+             "order, on fresh decoders and on freshly built contexts (Go re-randomises map iteration each time); TLC rejects two different order-sensitive digests for "
+             "one key (diagnostics and write-only attributes compared as multisets, as the property allows).",
+        ref="DESIGN.md 5/C03", technique="TLA+ memo rule (Session!Det) + TLC trace validation of repeated / re-ordered / fresh-decoder runs"),
+    "C04": dict(
+        text="Trace validation of the frame condition of Session!Query: a deep reflection fingerprint (unexported fields, schema tree, files + AST, functions, stored "
+             "targets/origins) of every PathContext is recorded after every single query of a shuffled mixed workload and after every query batch of typing "
+             "histories (incl. error outcomes); a Query step with fp' # fp is not a step of the specification.",
+        ref="DESIGN.md 5/C04", technique="TLA+ frame condition (Session!Query, fp unchanged) + TLC trace validation of fingerprinted query histories"),
+    "C18": dict(
+        text="Trace validation of Session!InsertLinesAt: for every (document, top-level insertion line, inserted blank/comment lines) the harness runs every query "
+             "before the edit and at the moved cursor after it; TLC applies the edit to its own text model (must equal the real new buffer) and checks every "
+             "reported position against Text!ShiftPos; payloads must be equal beyond positions.",
+        ref="DESIGN.md 5/C18", technique="TLA+ text-moving edit (InsertLinesAt/ShiftPos) + TLC trace validation of before/after observations"),
 }
 
 NOT_YET = {
